@@ -449,5 +449,67 @@ def ctfTRuInClass (target : MG Name) (domains : List Domain) (event : Ctf.Event)
         readingExists ev
   | _ => false
 
+/-! ### the class of conditional queries covered by the value theorem of Algorithm 3 (Y0/Props/C09Sound.lean
+`ctfTR_sound_partial`); decidable, reported by the driver (`ctftr cond`) so that the harness can tie the theorem to the
+oracle -/
+
+/-- line 1 of Algorithm 3: the ancestral components of `Y_* ∪ X_*` given `X_*` -/
+def condComps (g : MG Name) (o c : Ctf.Event) : Except Err (List (List Var)) :=
+  Ctf.ancestralComponents g (eventVars c) (Ctf.unionVars (eventVars c) (eventVars o))
+
+/-- no two subscripts of one variable name the same vertex with different values -/
+def consistentIvs (S : List Iv) : Bool := S.all fun i => S.all fun j => i.name != j.name || decide (i = j)
+
+/-- **the class of conditional queries the value theorem `ctfTR_sound_partial` covers** — a predicate on the target graph
+and the query only (no domain enters; that the simplified derived event `D_*` then lies in Algorithm 2's class
+`ctfSoundClass` is PROVED: `dstar_in_ctfSoundClass`, Y0/Lemmas/CtfTrCondDstarClass.lean):
+* one world: across ALL ancestral components a vertex is named by one counterfactual variable only;
+* every outcome is found in the components under its own name (`OutcomesFound`), two outcomes over one vertex are the
+  same item (an outcome MAY share its vertex with a condition: in one world it is then redundant);
+* no query variable intervenes on itself, or twice on one vertex with different values;
+* no literal subscript of the query names a vertex of the components, unless it names a condition (a subscript that names
+  a summed vertex would be captured by one of the two sums of line 4: the `literal_bound` finding). -/
+def ctfTRSoundClass (g : MG Name) (o c : Ctf.Event) : Bool :=
+  match condComps g o c with
+  | .error _ => false
+  | .ok comps =>
+    let T := comps.flatten
+    (T.all fun a => T.all fun b => a.name != b.name || decide (a = b)) &&
+    OutcomesFound g o c && (o.all fun p => o.all fun q => p.1.name != q.1.name || decide (p = q)) &&
+    (o ++ c).all (fun p => !Ctf.selfIntervened p.1 && consistentIvs p.1.ivs) &&
+    (o ++ c).all (fun p => p.1.ivs.all fun i =>
+      !(T.any fun a => a.name == i.name) || decide (i.name ∈ eventNames c))
+
+/-- is an answered conditional query inside the decidable hypotheses of `ctfTR_sound_partial`: in the class, and some
+valuation carries the values the QUERY gives to its variables and subscripts -/
+def ctfTRInClass (g : MG Name) (domains : List Domain) (o c : Ctf.Event) : Bool :=
+  match ctfTR g domains o c with
+  | .ok (some (_, some _)) => ctfTRSoundClass g o c && readingExists (o ++ c)
+  | _ => false
+
+/-- the conjuncts of `ctfTRSoundClass` / `ctfTRInClass` one by one (driver op `ctftr condclass`; diagnostics only):
+one world, outcomes found, outcome not condition (NOT part of the class any more), outcomes over distinct vertices, no self-intervention and consistent
+subscripts, no captured literal subscript, `D_*` in `ctfSoundClass` (implied by the others: `dstar_in_ctfSoundClass`;
+NOT part of the class), a reading of the query exists -/
+def ctfTRClassFlags (g : MG Name) (domains : List Domain) (o c : Ctf.Event) : List Bool :=
+  match condComps g o c with
+  | .error _ => []
+  | .ok comps =>
+    let T := comps.flatten
+    [ (T.all fun a => T.all fun b => a.name != b.name || decide (a = b)),
+      OutcomesFound g o c, OutcomeNotCondition o c,
+      (o.all fun p => o.all fun q => p.1.name != q.1.name || decide (p = q)),
+      (o ++ c).all (fun p => !Ctf.selfIntervened p.1 && consistentIvs p.1.ivs),
+      (o ++ c).all (fun p => p.1.ivs.all fun i =>
+        !(T.any fun a => a.name == i.name) || decide (i.name ∈ eventNames c)),
+      (match line2C g o c with
+        | .error _ => false
+        | .ok (dstar, _) =>
+          match ctfTRu g domains dstar with
+          | .ok (some (_, some simplified)) =>
+            (match ctfSoundClass g (Ctf.fillEvent simplified) with | .ok b => b | .error _ => false)
+          | _ => false),
+      readingExists (o ++ c) ]
+
 end CtfTr
 end Y0
